@@ -131,6 +131,12 @@ func hardSsaDoc(r *rng) []byte {
 	names := []string{"", "", "Bob", "Mary Ann", "a>b", "A&B", " Bob ", "x<y", "Zoë", "D'Arcy; J"}
 	frag := []string{"alpha", "beta", "gamma", " ", " ", "{\\i1}", "{\\i0}", "{\\b1}{\\c&HFF&}", "&", "<", ">", " --> ", "NOTE ", "STYLE", "\\N", "\\n", "\\N\\N",
 		"{", "}", ",", ": ", "; ", "é", " ", "&amp;", "&lt;", "\t", "<i>", "</i>", "<00:00:01.500>", "42", "Region: ", "日本", "-", "--", "x > y", "\\h", "\\"}
+	// every second document stays inside what both formats can express (hard characters in the middle of the lines only)
+	mild := r.chance(1, 2)
+	if mild {
+		names = []string{"", "Bob", "Mary Ann", "Zoë", "D'Arcy; J"}
+		frag = []string{"alpha", "beta", " ", " ", "{\\i1}", "{\\i0}", "{\\b1}{\\c&HFF&}", "&", "<", ">", ",", ": ", "; ", "é", "\u00a0", "&amp;", "&lt;", "<i>", "</i>", "<00:00:01.500>", "42", "日本", "-", "--", "\\h", "\\", "\\Nword"}
+	}
 	v4p := r.chance(1, 2)
 	var b strings.Builder
 	b.WriteString("[Script Info]\n; a comment\nTitle: hard texts\n")
@@ -160,11 +166,14 @@ func hardSsaDoc(r *rng) []byte {
 		en := t
 		text := ""
 		k := 1 + r.intn(6)
-		if r.chance(1, 12) {
+		if r.chance(1, 12) && !mild {
 			k = 0
 		}
 		for j := 0; j < k; j++ {
 			text += frag[r.intn(len(frag))]
+		}
+		if mild {
+			text = r.pick("One", "deux", "3") + text + r.pick("end", "fin", "!")
 		}
 		first := "0"
 		if !v4p {
@@ -180,6 +189,12 @@ func hardVttDoc(r *rng) []byte {
 	frag := []string{"alpha", "beta", "gamma", " ", " ", "<i>", "</i>", "<b>", "</b>", "<c.red>", "</c>", "<lang en>", "</lang>", "&amp;", "&lt;", "&nbsp;", "&gt;", ">",
 		"{b}", "{", "}", "{\\i1}", "\\N", "\\n", ",", ": ", "; ", "é", " ", "<00:00:01.500>", "<00:02.000>", "42", "[Events]", "Dialogue: ", "日本", "\t", "\\"}
 	voices := []string{"", "", "<v Bob>", "<v Mary Ann>", "<v Smith, John>", "<v.loud Zoë>", "<v  Bob >", "<v A;B>"}
+	mild := r.chance(1, 2)
+	if mild {
+		frag = []string{"alpha", "beta", " ", " ", "<i>", "</i>", "<b>", "</b>", "<c.red>", "</c>", "<lang en>", "</lang>", "&amp;", "&lt;", "&nbsp;", "&gt;", ">",
+			",", ": ", "; ", "é", "<00:00:01.500>", "<00:02.000>", "42", "[Events]", "Dialogue: ", "日本", "\\", "-"}
+		voices = []string{"", "<v Bob>", "<v Mary Ann>", "<v.loud Zoë>", "<v A;B>"}
+	}
 	var b strings.Builder
 	b.WriteString("WEBVTT\n")
 	if r.chance(1, 4) {
@@ -205,10 +220,12 @@ func hardVttDoc(r *rng) []byte {
 		st := t
 		t += 1 + int64(r.intn(5000))
 		en := t
-		ms := func(v int64) string { return fmt.Sprintf("%02d:%02d:%02d.%03d", v/3600000, v/60000%60, v/1000%60, v%1000) }
+		ms := func(v int64) string {
+			return fmt.Sprintf("%02d:%02d:%02d.%03d", v/3600000, v/60000%60, v/1000%60, v%1000)
+		}
 		fmt.Fprintf(&b, "%s --> %s%s\n", ms(st), ms(en), r.pick("", "", " align:left", " line:0 position:50%"))
 		nl := 1 + r.intn(3)
-		if r.chance(1, 10) {
+		if r.chance(1, 10) && !mild {
 			nl = 0
 		}
 		for j := 0; j < nl; j++ {
@@ -216,6 +233,13 @@ func hardVttDoc(r *rng) []byte {
 			k := 1 + r.intn(5)
 			for q := 0; q < k; q++ {
 				line += frag[r.intn(len(frag))]
+			}
+			if mild {
+				line = voices[r.intn(len(voices))] + r.pick("One", "deux", "3")
+				for q := 0; q < k; q++ {
+					line += frag[r.intn(len(frag))]
+				}
+				line += r.pick("end", "fin", "!")
 			}
 			if strings.TrimSpace(line) == "" || strings.Contains(line, "-->") {
 				line = "plain"
